@@ -108,7 +108,8 @@ pub fn fcfg(c: &FragCase) -> FCfg {
         via_builder: c.via_builder,
         timescale: 90000,
         frag_ms: 2000,
-        stray: 0,
+        // builder call order (see frag::build_frag): exercised by every fragmented check
+        stray: if c.via_builder { ((c.width % 4) as u8) << 4 } else { 0 },
     }
 }
 
@@ -398,10 +399,23 @@ pub fn long_cases() -> Vec<FragCase> {
     let w = |ddts: u32, size: u32, sync: bool| FGene::Write { ddts, cts: 0, size, sync, back: None };
     let base = |ops: Vec<FGene>, codec: u8| FragCase { codec, via_builder: codec % 2 == 0, start: 0, width: 640, height: 480, pset_len: (10, 4, 6), ops, const_interval: None, realistic: codec % 2 == 1 };
     let mut v = Vec::new();
-    // one segment with 70 000 samples
+    // one segment with 70 000 samples, one with 140 000 (moof beyond 1 and 2 MiB)
     let mut ops: Vec<FGene> = (0..70_000u32).map(|i| w(3000, 1 + (i % 5), i % 30 == 0)).collect();
     ops.push(FGene::Flush);
     v.push(base(ops, 0));
+    let mut ops: Vec<FGene> = (0..140_000u32).map(|i| w(1500, 1 + (i % 3), i % 250 == 0)).collect();
+    ops.push(FGene::Flush);
+    ops.extend((0..3u32).map(|i| w(1500, 9, i == 0)));
+    ops.push(FGene::Flush);
+    v.push(base(ops, 1));
+    // a fragment of more than 64 MiB (66 samples of 1 MiB) between ordinary ones
+    let mut ops = vec![w(3000, 20, true), w(3000, 10, false), FGene::Flush];
+    ops.extend((0..66u32).map(|i| w(3000, (1 << 20) + i, i == 0)));
+    ops.push(FGene::Flush);
+    for _ in 0..3 {
+        ops.extend([w(3000, 33, true), w(3000, 12, false), FGene::Ready, FGene::Flush]);
+    }
+    v.push(base(ops, 2));
     // 400 segments of 2 samples, init requested now and then, queries in between
     let mut ops = Vec::new();
     for k in 0..400u32 {
@@ -418,7 +432,7 @@ pub fn long_cases() -> Vec<FragCase> {
     }
     v.push(base(ops, 1));
     // huge and empty samples in one segment, then a 4 097-sample segment
-    let mut ops = vec![w(3000, 3_200_000, true), w(3000, 0, false), w(3000, 1_048_577, false), FGene::Flush];
+    let mut ops = vec![w(3000, 3_200_000, true), w(3000, 0, false), w(3000, 1_048_577, false), FGene::Flush, w(3000, 5, true), w(3000, (8 << 20) + 1, false), w(3000, 6, false), FGene::Flush];
     ops.extend((0..4_097u32).map(|i| w(3003, 2 + (i % 2), i == 0)));
     ops.push(FGene::Flush);
     v.push(base(ops, 2));
